@@ -33,11 +33,54 @@ func c09Line(first string, toks [6]string, msg []byte) []byte {
 var c09StdToks = [6]string{"2019-08-15T15:50:46.866915+03:00", "local1", "my-app1", "123", "fn1", "-"}
 var c09TinyToks = [6]string{"t", "h", "a", "p", "s", "e"}
 
+// c09Reach names the decision of Parse an input exercises (statistics of the input distribution only)
+func c09Reach(input []byte, cfg c09Cfg) string {
+	if len(input) < 32 {
+		return "shorter-than-32"
+	}
+	if input[0] != '<' {
+		return "no-lt"
+	}
+	parts := bytes.SplitN(input, []byte(" "), 8)
+	if len(parts) == 1 {
+		return "no-space"
+	}
+	tok := parts[0]
+	if !bytes.HasSuffix(tok, []byte(">1")) {
+		if string(tok) == "<" {
+			return "first-token-lt"
+		}
+		return "no-version-suffix"
+	}
+	_, _, liberal := c09PriOf(tok)
+	if !liberal {
+		if m := c09LiberalPRI.FindSubmatch(tok); m != nil && len(tok) <= 64 {
+			return "pri-out-of-range"
+		}
+		return "pri-not-a-number"
+	}
+	if len(parts) < 8 {
+		return fmt.Sprintf("missing-field-%d", len(parts)-1)
+	}
+	r := "pass"
+	msg := parts[7]
+	if len(msg) > cfg.maxMsg {
+		r += "-overflow"
+	} else if len(input) >= cfg.maxRec {
+		r += "-at-record-limit"
+	}
+	if bytes.IndexByte(msg[:min(len(msg), cfg.maxMsg)], '\n') >= 0 {
+		r += "-newline"
+	}
+	return r
+}
+
 func c09Gen(g *Gen) {
 	r := g.R
 	pool := func() int64 { return int64(c09Pools[r.Intn(len(c09Pools))]) }
 	emit := func(cls string, cfg c09Cfg, input []byte, mapping [][]byte) {
 		g.Count(cls)
+		g.Count("reach:" + c09Reach(input, cfg))
 		g.Case(0, append([][]byte{input}, mapping...), []int64{int64(cfg.maxMsg), int64(cfg.maxRec), pool()})
 	}
 	customMap := [][]byte{[]byte("off"), []byte("fatal"), []byte("crit"), []byte("error"), []byte("warn"), []byte("notice"), []byte("info"), []byte("debug")}
